@@ -145,7 +145,8 @@ let () =
       let opl = List.filter (fun s -> s <> "") (split ';' body) in
       if String.length line > 0 && line.[0] = 'F' then Printf.printf "%d F %d\n" k (List.length opl)
       else begin
-        let jfix = not (String.length line > 1 && line.[1] = 'o') in      (* label "Mo..": the code as found (F4) *)
+        (* the model follows the sources at hand (translated flags); label "Mo..": the jettison loop as found (F4) *)
+        let jfix = code_jfix && not (String.length line > 1 && line.[1] = 'o') in
         let b = ref (empty_bserver ops) in
         let nsess = ref 0 in
         let hung = ref false in
@@ -183,7 +184,7 @@ let () =
               end in
             (match ev with
              | Some e ->
-               (match bstep ops all_fixed jfix model_fuel !b e with
+               (match bstep ops code_fixes jfix model_fuel !b e with
                 | Some b' -> b := b'
                 | None -> hung := true)
              | None -> b := { !b with b_last = [] });
